@@ -2,7 +2,7 @@
 Require Import Parser Printer.
 Require Lex LexProof LexCtx LexCtx2.
 Require Import ParserRoundTrip ParserParens.
-Require LexCase LexWs LexWsG.
+Require LexCase LexWs LexWsG ParserTokText SqlQueryText.
 Require Import Api.
 From Coq Require Import List String NArith.
 Import ListNotations.
@@ -11,6 +11,28 @@ Import ListNotations.
 Theorem C09_keyword_case : forall w w' : Lex.bytes,
   map Lex.upper_ascii w = map Lex.upper_ascii w' -> Lex.word_type w = Lex.word_type w'.
 Proof. exact LexCase.word_type_case. Qed.
+
+(* ... and from single words to whole queries: the parser reads only the TYPE of a token that is not a term. Two token lists
+   that agree in every token type, and in the text of every term token (Literal, Quoted, Regexp; EOF and Error too), have the
+   same outcome - the same tree or the same rejection: whatever case AND, OR, NOT and TO are written in, and whatever else a
+   lexer might put into the text of an operator token, the result is the same *)
+Theorem C09_keyword_case_same_parse : forall (o : oracle) (df : string) (ts ts' : list token),
+  Forall2 ParserTokText.same_for_parser ts ts' -> parse_toks o df ts = parse_toks o df ts'.
+Proof. exact ParserTokText.token_text_is_irrelevant_outside_terms. Qed.
+
+Theorem C09_keyword_case_same_parse_of_text : forall (o : oracle) (cl : Lex.classes) (df s s' : string),
+  Forall2 ParserTokText.same_for_parser (Api.lex_tokens cl s) (Api.lex_tokens cl s') -> Api.parse o cl df s = Api.parse o cl df s'.
+Proof. intros o cl df s s' H. exact (ParserTokText.token_text_is_irrelevant_outside_terms o df _ _ H). Qed.
+
+(* the premise is met by a query and its variant with every keyword in another case; both parse to a tree *)
+Example c09_keyword_case_example :
+  let s := "a:b and NOT c:d Or e:[1 tO 5]"%string in let s' := "a:b AND not c:d OR e:[1 TO 5]"%string in
+  Forall2 ParserTokText.same_for_parser (Api.lex_tokens LexWs.cl_ascii s) (Api.lex_tokens LexWs.cl_ascii s') /\
+  exists e, Api.parse SqlQueryText.o_ex LexWs.cl_ascii "" s = PTree e.
+Proof.
+  split; [vm_compute; repeat (constructor; [split; [reflexivity|intros H; first [reflexivity|discriminate H]]|]); constructor|].
+  vm_compute. eexists; reflexivity.
+Qed.
 
 (* two printed trees (each with parentheses at least where the table requires them) that differ only in parenthesis nodes
    - around the whole query, around any operand, around a field's value - parse to one and the same tree *)
@@ -75,3 +97,5 @@ Print Assumptions C09_redundant_parentheses.
 Print Assumptions C09_whitespace_same_tokens_any_bytes.
 Print Assumptions C09_whitespace_same_parse_any_bytes.
 Print Assumptions C09_token_independent_of_what_follows.
+Print Assumptions C09_keyword_case_same_parse.
+Print Assumptions C09_keyword_case_same_parse_of_text.
